@@ -18,6 +18,12 @@ CHECKS = {
   text='For every bit pattern of every small encodable format (extended float: every es/nbits/NaN kind/infinity flag/eoffset; IEEE; two\'s-complement; sign-magnitude; exponential) the real decode is compared with an independent decoder, encode(decode(b)) with b, decode(encode(v)) with v, and to_ordinal/from_ordinal/next_up/next_down/normalize/representable_under/minval/maxval/largest/smallest/infval with the sorted decoded value set. Exhaustive below the stated widths; binary16 vs numpy, binary32/64 sampled vs struct.',
   ref='DESIGN.md 1.2, 2/C16',
   note='Trusted: vf/oracle/layout.py, numpy.float16 and struct for the IEEE interchange formats.'),
+ 'C05': dict(
+  technique='exhaustive small-encoding sweep of the real RealFloat/Float operators against a denotational (Fraction + IEEE special rules) oracle',
+  category='exploration',
+  text='Every ordered pair of small encodings (sign x significand x exponent, so each value occurs in many redundant encodings, zeros with every exponent, -0, infinities, NaN) of RealFloat and Float, crossed with ints, floats (incl. +-0.0, inf, nan, subnormals, 2^+-1000) and Fractions (dyadic and not), is pushed through +, -, *, **, neg, pos, abs, the six comparisons (both operand orders, native on the left too), compare(), hash, int(), float(), as_rational, split, normalize, is_more_significant, bit and the from_* constructors; each result is compared with the same operation on the denotations. Exhaustive on the stated window, wide values sampled.',
+  ref='DESIGN.md 2/C05',
+  note='Trusted: Fraction arithmetic and the IEEE 754 tables written in vf/checks/c05.py. The sign of a zero result that depends on the sign of an int/Fraction zero operand is left open (such operands carry no sign). RealFloat.compare(Float) is outside its declared domain and not called.'),
 }
 
 NOT_YET = {}
